@@ -74,7 +74,7 @@ def check(run):
     quick = run.tier == "quick"
     exe = vlib.build_harness(run)
     U = vlib.universe(run, ECOS)
-    acc = vlib.accepted(run, exe, U, regex_extra=200 if quick else 1500, rnd=random.Random(run.seed + 7))
+    acc = vlib.accepted(run, exe, U, regex_extra=200 if quick else 1500, rnd=random.Random(run.seed + 7), tokens=2 if quick else 3, tokens_cap=300 if quick else 1500)
     rnd = random.Random(run.seed)
     rounds = 1 if quick else 4
     jobs = []
